@@ -74,7 +74,7 @@ fn c15_q_frame_propagates_layer_error() {
 #[kani::stub(alloc::fmt::format, crate::vklib::empty_format)]
 #[kani::stub(std::hash::RandomState::new, crate::vklib::fixed_random_state)]
 #[kani::stub(crate::reader::AseReader::unzip, crate::vklib::stub_unzip_identity)]
-fn c15_q_frame_propagates_cel_type_error() {
+fn c15_t_frame_propagates_cel_type_error() {
     let mut p = Vec::new();
     put16(&mut p, 0);
     put_any(&mut p, 5);
